@@ -111,8 +111,13 @@ fn define_struct(
     });
 }
 
-fn define_trait(env: &mut PackageTypeEnv, trait_def: &hir::TraitDef) {
+fn define_trait(
+    env: &mut PackageTypeEnv,
+    diagnostics: &mut Diagnostics,
+    trait_def: &hir::TraitDef,
+) {
     let mut methods = IndexMap::new();
+    let no_tparams = HashSet::new();
 
     for hir::TraitMethodSignature {
         name: method_name,
@@ -125,6 +130,9 @@ fn define_trait(env: &mut PackageTypeEnv, trait_def: &hir::TraitDef) {
             .map(|ast_ty| tast::Ty::from_hir(env, ast_ty, &[]))
             .collect::<Vec<_>>();
         let ret_ty = tast::Ty::from_hir(env, ret_ty, &[]);
+        for ty in param_tys.iter().chain(std::iter::once(&ret_ty)) {
+            validate_ty(env, diagnostics, ty, &no_tparams);
+        }
         let fn_ty = tast::Ty::TFunc {
             params: param_tys,
             ret_ty: Box::new(ret_ty),
@@ -980,7 +988,7 @@ pub fn collect_typedefs(
         match hir_table.def(*item) {
             hir::Def::EnumDef(enum_def) => define_enum(env, diagnostics, enum_def),
             hir::Def::StructDef(struct_def) => define_struct(env, diagnostics, struct_def),
-            hir::Def::TraitDef(trait_def) => define_trait(env, trait_def),
+            hir::Def::TraitDef(trait_def) => define_trait(env, diagnostics, trait_def),
             hir::Def::ImplBlock(impl_block) => {
                 if let Some(trait_name) = &impl_block.trait_name {
                     define_trait_impl(env, diagnostics, impl_block, trait_name, hir_table);
